@@ -15,6 +15,7 @@ import (
 	"strings"
 
 	"golang.org/x/tools/go/packages"
+	"golang.org/x/tools/go/ssa"
 )
 
 // Rename normalisation.
@@ -427,4 +428,72 @@ func writeBuildOverlay(ov map[string][]byte) (string, func(), error) {
 		return "", nil, err
 	}
 	return js, func() { os.RemoveAll(dir) }, nil
+}
+
+// Types declared after the baseline (a small carrier type a refactoring introduced: `type finisher struct{ log, ctx,
+// cancel }` whose method replaces a closure) are transparent to the value-provenance helpers: a load of one of their
+// fields resolves to the values stored into that field, as a captured variable resolves to the stores of its cell.
+var (
+	curProg  *Prog
+	newTypes map[string]bool // "pkgpath.TypeName"
+)
+
+// newTypeField: v loads (or extracts) a field of a type that the baseline does not know; returns the field.
+func newTypeField(v ssa.Value) *types.Var {
+	if curProg == nil || len(newTypes) == 0 {
+		return nil
+	}
+	var st *types.Struct
+	var owner types.Type
+	idx := -1
+	switch x := v.(type) {
+	case *ssa.UnOp:
+		fa, ok := x.X.(*ssa.FieldAddr)
+		if !ok {
+			return nil
+		}
+		owner, idx = fa.X.Type(), fa.Field
+	case *ssa.Field:
+		owner, idx = x.X.Type(), x.Field
+	default:
+		return nil
+	}
+	if pt, ok := owner.Underlying().(*types.Pointer); ok {
+		owner = pt.Elem()
+	}
+	nt, ok := owner.(*types.Named)
+	if !ok || nt.Obj().Pkg() == nil || !newTypes[nt.Obj().Pkg().Path()+"."+nt.Obj().Name()] {
+		return nil
+	}
+	st, _ = nt.Underlying().(*types.Struct)
+	if st == nil || idx < 0 || idx >= st.NumFields() {
+		return nil
+	}
+	return st.Field(idx)
+}
+
+// computeNewTypes: the unexported struct types of the production packages that the baseline table does not list.
+func computeNewTypes(roots []*packages.Package) map[string]bool {
+	var base []Sym
+	if err := json.Unmarshal(symbolsBaselineJSON, &base); err != nil || len(base) == 0 {
+		return nil
+	}
+	known := map[string]bool{}
+	for _, s := range base {
+		if s.Kind == "type" {
+			known[s.Pkg+"|"+s.Name] = true
+		}
+	}
+	out := map[string]bool{}
+	cur, _ := collectSyms(roots)
+	for _, s := range cur {
+		if s.Kind == "type" && !known[s.Pkg+"|"+s.Name] && strings.HasPrefix(s.Type, "*types.Struct") {
+			path := Mod
+			if s.Pkg != "" {
+				path = Mod + "/" + s.Pkg
+			}
+			out[path+"."+s.Name] = true
+		}
+	}
+	return out
 }
